@@ -101,6 +101,11 @@ impl Parser {
 
         // not enough data
         if src.len() < frame_len {
+            // refuse an over-sized frame as soon as its header is known, do not wait for (and make
+            // the caller buffer) the announced payload
+            if length > max_size {
+                return Err(ProtocolError::Overflow);
+            }
             let min_length = min(length, max_size);
             let required_cap = match idx.checked_add(min_length) {
                 Some(cap) => cap,
